@@ -455,6 +455,33 @@ def check(repo: Repo, run: Run) -> None:
                 run.ob("C01.M7", f"DoubleType.{dunder}|zero divisor", not bad,
                        f"DoubleType.{dunder}: " + ("x / +-0.0 is +-inf with sign sgn(x)*sgn(0), 0/0 and NaN/0 are NaN, for all 14 class x sign cases" if not bad else "; ".join(bad[:2])), ct.loc(c.node))
 
+    # M8 ---------------------------------------------------------------
+    # unary minus on a double flips the sign bit: -(+0.0) is -0.0 (observable as 1.0 / -x), -(-0.0) is +0.0,
+    # -NaN is NaN, -(+-inf) is -+inf.  (`0.0 - x` is not negation: 0.0 - 0.0 = +0.0.)
+    negimpl = impls.get("-_")
+    if negimpl is not None and negimpl.kind == "operator" and negimpl.direct:
+        c = matrix.cell(repo, "DoubleType", negimpl.direct)
+        if c.is_repo:
+            fn = c.nnode
+            me = fn.args.args[0].arg
+            bad, inconc = [], None
+            for x in (FV("zero", 1), FV("zero", -1), FV("fin", 1), FV("fin", -1), FV("inf", 1), FV("inf", -1), FV("nan", None)):
+                try:
+                    got = IeeeEval(fn, {me: x}).run()
+                except IeeeTop as ex:
+                    inconc = str(ex)
+                    break
+                want = FV(x.cls, None if x.sign is None else -x.sign)
+                if (got.cls, got.sign if got.cls != "nan" else None) != (want.cls, want.sign):
+                    bad.append(f"-({x!r}) gives {got!r}, IEEE-754 negation gives {want!r}")
+            if inconc:
+                run.inconclusive("C01.M8", f"DoubleType.{negimpl.direct}", f"outside the evaluated subset: {inconc}")
+            else:
+                run.ob("C01.M8", f"DoubleType.{negimpl.direct}|sign bit", not bad,
+                       f"DoubleType.{negimpl.direct}: " + ("flips the sign for all 7 value classes (zeros, finite, infinities, NaN)" if not bad else "; ".join(bad[:2])), ct.loc(c.node))
+        else:
+            run.ob("C01.M8", f"DoubleType.{negimpl.direct}|sign bit", True, f"inherited {c.label()} flips the sign bit (the result class is C13's concern)", str(ct.path))
+
     # M6 ---------------------------------------------------------------
     # a range-checked operator may only produce the *final* result: an intermediate that goes through the
     # class's own checked operators (self / other, other * q, ...) is rejected when it leaves the range even
